@@ -3,7 +3,7 @@
 One request per line:
   c05 <model|spec> a b c d e f | font <namehex> <first> <missing> <descent> <kind> <w…|-> | …
       kind = s | cidh | t3:a,b,c,d,e,f | cidv:<dvy>:<vx,vy;…|->
-      | form <a b c d e f|nomatrix> ; <res> ; <tokens> | … | page <res> | stream <tokens|-> | stream …
+      | form <a b c d e f|nomatrix> ; <res> ; <tokens> | … | page <res> | stream <tokens|-> | stream … | bstream <hex|-> …   (mode modelb reads the bstreams)
   res    = inherit  |  res <hex=idx,…|-> <hex=idx,…|->          (fonts, xobjects)
   tokens = n<rat> s<hex|-> /<hex> [ … ] z b0 b1 o<hex>
 Reply: glyphs joined by `;`, each `a b c d e f adv x0 y0 x1 y1 size <fonthex> <colour|->`, `-` for none;
@@ -11,6 +11,7 @@ Reply: glyphs joined by `;`, each `a b c d e f adv x0 y0 x1 y1 size <fonthex> <c
 -/
 import PdfVerif.Model.Interp
 import PdfVerif.Spec.TextModel
+import PdfVerif.Model.ContentLex
 
 open PdfVerif PdfVerif.Content
 
@@ -96,6 +97,7 @@ structure Req where
   forms : Array Form := #[]
   res : Res := ⟨[], []⟩
   streams : Array (List Tok) := #[]
+  bstreams : Array Bytes := #[]
 
 def parseSection (r : Req) (sec : String) : Option Req :=
   match words sec with
@@ -152,6 +154,10 @@ def parseSection (r : Req) (sec : String) : Option Req :=
     match parseRes rest with
     | some (some res) => some { r with res := res }
     | _ => none
+  | ["bstream", h] =>
+    match bytesOfHex h with
+    | some bs => some { r with bstreams := r.bstreams.push bs }
+    | none => none
   | "stream" :: rest =>
     match parseToks rest #[] with
     | some toks => some { r with streams := r.streams.push toks.toList }
@@ -179,6 +185,13 @@ def handle (line : String) : String :=
     if r.mode == "model" then
       let (st, gs) := Interp.runPage env FUEL r.ctm r.res r.streams.toList
       if st.fuelOk then showGlyphs gs else "ERR fuel"
+    else if r.mode == "modelb" then
+      -- byte level: lexer model (C14) over the streams, assembler, interpreter model
+      match ContentLex.contentToks r.bstreams.toList with
+      | none => "ERR outside the byte-level view"
+      | some toks =>
+        let (st, gs) := Interp.runPage env FUEL r.ctm r.res [toks]
+        if st.fuelOk then showGlyphs gs else "ERR fuel"
     else if r.mode == "spec" then
       match parseInstrs r.streams.toList.flatten [] with
       | (is, []) =>
